@@ -57,3 +57,27 @@ fn a11_pair(n: usize, m: usize) -> usize {
 pub fn a11_bad_pattern(old_range: Range<usize>, new_range: Range<usize>) -> usize {
     a11_pair(old_range.len(), new_range.len()) + a11_pair(old_range.len(), old_range.len())
 }
+
+/// control G12: a reversed zip pairs items from the front
+pub fn g12_bad_reversed_zip(old: &[u32], old_range: std::ops::Range<usize>, new: &[u32], new_range: std::ops::Range<usize>) -> usize {
+    old_range
+        .zip(new_range)
+        .rev()
+        .take_while(|&(i, j)| old[i] == new[j])
+        .count()
+}
+
+/// silent twin: both sides reversed, then zipped -- and a reversed zip of two ranges of the same written length
+pub fn g12_good_reversed_zip(old: &[u32], old_range: std::ops::Range<usize>, new: &[u32], new_range: std::ops::Range<usize>, n: usize) -> usize {
+    let a = old_range
+        .clone()
+        .rev()
+        .zip(new_range.clone().rev())
+        .take_while(|&(i, j)| old[i] == new[j])
+        .count();
+    let b = (old_range.start..old_range.start + n)
+        .zip(new_range.start..new_range.start + n)
+        .rev()
+        .count();
+    a + b
+}
